@@ -678,7 +678,9 @@ pub fn run(prop: StepProp, tier: Tier, seed: u64) -> i32 {
         // exhaustive depth-<=4 scripts over a 6-letter alphabet on a few worlds
         let mut w = sh;
         while w < n_worlds_exh {
-            for depth in 1..=4usize {
+            // thorough: depth 5 (7 776 scripts) on every fourth world
+            let max_depth = if tier == Tier::Thorough && w % 4 == 0 { 5usize } else { 4 };
+            for depth in 1..=max_depth {
                 let total = 6usize.pow(depth as u32);
                 for code in 0..total {
                     // the same world for all codes of this (w): derive from w only
